@@ -259,6 +259,21 @@ def run(ctx):
                     print(f"DRIFT: TLC counterexample of {res.violated} did not reproduce on the real code "
                           f"(deviations={summ.get('deviations')}): model and code differ")
                     ctx.note(f"unconfirmed TLC counterexample for {res.violated}; guide deviations {summ.get('deviations')}")
+                    # the model (fixed step lists) is coarser than the code (e.g. a step that is taken conditionally): search the
+                    # neighbourhood of the counterexample on the REAL code - schedules of exactly this program; a history that
+                    # the event specification cannot explain is a V1 violation whatever the model said
+                    st = "counting" if counting else "bitset"
+                    bv2 = vp.BatchValidator(ctx, "lockfree", "EventObsTrace", on_reject(ctx), name="EventObsTrace-search")
+                    # the counterexample's program and two canonical ones (a sleeping listener, two notifier threads, one of
+                    # them notifying twice: enough for "trigger swallowed / skipped while the listener goes back to sleep")
+                    cands = [prog, {"n": nprog, "l": ["block", "block"]}, {"n": nprog, "l": ["try", "block"]}]
+                    for k, sp in enumerate(cands):
+                        for mode, extra in (("random", ["--runs", 3000 if q else 20000]), ("dfs", ["--bound", 3, "--runs", 3000 if q else 40000])):
+                            trace, summ = drv(ctx, "sched", ["--state", st, "--prog", json.dumps(sp), "--cap", cap, "--mode", mode] + extra
+                                              + (["--fail-full"] if ff else []), f"search-{nm}-{k}-{mode}")
+                            ctx.evaluations += summ["executions"]
+                            bv2.add(trace, (f"search around the TLC counterexample ({mode} schedules) {st} {sp}", summ), summ["executions"])
+                    bv2.run()
                 break
             if not res.ok:
                 raise vp.ToolError(f"TLC failed on {name}: {res.error}\n{res.output[-3000:]}")
